@@ -686,7 +686,9 @@ impl Database {
         // if the durable state it replaces turns out to be corrupt, in which case we recover from
         // the live state and report not-clean.
         let mut rolling_back_non_durable = false;
-        if self.mem.pending_non_durable_commit() {
+        // A file grown by a transaction that then rolled back is live state too: the layout in
+        // memory is ahead of the one on disk, which the reload below would report as a repair.
+        if self.mem.pending_non_durable_commit() || self.mem.unpersisted_layout_change()? {
             // Verify from disk, not the page cache, so external modification is detected.
             self.mem.clear_read_cache();
             // Don't promote over a truncated or extended file -- the committed layout would be
